@@ -240,6 +240,13 @@ impl PacketSender {
     // Responds to a receive window acknowledgement. All packet data beyond the new receive window
     // is forgotten, thereby freeing transfer window & allocation space for new packets.
     pub fn acknowledge(&mut self, receiver_base_id: u32) {
+        if !packet_id::is_valid(receiver_base_id) {
+            // The ID arrives as a full 32-bit field. A value beyond the 20-bit ID space whose low
+            // bits fall within the window would pass the test below, and the loop would then run
+            // past next_id into empty window slots
+            return;
+        }
+
         let receiver_delta = packet_id::sub(receiver_base_id, self.base_id);
         let span = packet_id::sub(self.next_id, self.base_id);
 
